@@ -4,6 +4,7 @@ import (
 	"fmt"
 	"go/token"
 	"go/types"
+	"os"
 	"sort"
 	"strings"
 
@@ -75,6 +76,9 @@ func (fr *Frame) analyse() {
 	sort.Slice(hs, func(i, j int) bool { return loopPos(hs[i]) < loopPos(hs[j]) })
 	for i, h := range hs {
 		fr.loops[h].ord = i + 1
+		if os.Getenv("GOVC_LOOPS") != "" {
+			fmt.Fprintf(os.Stderr, "loop %d of %s: header block %d at %s\n", i+1, fn.Name(), h.Index, fn.Prog.Fset.Position(token.Pos(loopPos(h))))
+		}
 	}
 	for _, b := range fr.order {
 		for _, h := range hs {
@@ -97,6 +101,12 @@ func loopPos(h *ssa.BasicBlock) int {
 	// falling back to block index.
 	best := token.Pos(0)
 	for _, in := range h.Instrs {
+		if _, isPhi := in.(*ssa.Phi); isPhi {
+			continue // a phi carries the position of the variable's declaration, not of the loop
+		}
+		if _, isDbg := in.(*ssa.DebugRef); isDbg {
+			continue
+		}
 		if p := in.Pos(); p.IsValid() && (best == 0 || p < best) {
 			best = p
 		}
